@@ -13,7 +13,7 @@ Chans == {[k |-> "dl", a |-> a, c |-> d] : a \in Agents, d \in {"up", "down"}}  
 \* Kinds: the computation / replica operations drawn (a subset of OpKinds); WithAgentOps: also agent subscriptions and departures
 Ops == {[k |-> k, a |-> a, c |-> c] : k \in OpKinds \cap Kinds, a \in Agents, c \in Comps}
        \cup (IF WithAgentOps THEN {[k |-> k, a |-> a, c |-> b] : k \in AgentOpKinds, a \in Agents, b \in Agents}
-                                   \cup {[k |-> "aunreg", a |-> a, c |-> ""] : a \in Agents}
+                                   \cup {[k |-> k, a |-> a, c |-> ""] : k \in {"aunreg", "areg"}, a \in Agents}
               ELSE {})
        \* (DrainOnly: no single deliveries, only "everything in flight is delivered now")
        \cup (IF WithDeliveries THEN (IF DrainOnly THEN {} ELSE Chans) \cup {[k |-> "drain", a |-> "", c |-> ""]} ELSE {})
